@@ -429,6 +429,32 @@ pub open spec fn step_msg(s: Raw, t: Raw, sender: Seq<char>, h: u64, msg: Execut
     }
 }
 
+// serves: C14
+/// once the admin has been cleared no execute message succeeds any more: members, total, hooks and the (empty) admin are frozen
+pub proof fn lemma_c14_frozen_without_admin(s: Raw, t: Raw, sender: Seq<char>, h: u64, msg: ExecuteMsg)
+    requires admin_of(s, "admin"@) == Some(None::<Addr>)
+    ensures !step_msg(s, t, sender, h, msg)
+{
+}
+pub open spec fn c14_step_at(tr: Seq<Raw>, k: int) -> bool {
+    tr[k + 1] == tr[k] || exists|sender: Seq<char>, h: u64, msg: ExecuteMsg| #[trigger] step_msg(tr[k], tr[k + 1], sender, h, msg)
+}
+// serves: C14
+pub proof fn lemma_c14_frozen_history(tr: Seq<Raw>, i: int, j: int)
+    requires 0 <= i <= j < tr.len(), forall|k: int| 0 <= k < tr.len() - 1 ==> #[trigger] c14_step_at(tr, k), admin_of(tr[i], "admin"@) == Some(None::<Addr>)
+    ensures tr[j] == tr[i]
+    decreases j - i
+{
+    if i < j {
+        lemma_c14_frozen_history(tr, i, j - 1);
+        assert(c14_step_at(tr, j - 1));
+        if tr[j] != tr[j - 1] {
+            let (sender, h, msg) = choose|sender: Seq<char>, h: u64, msg: ExecuteMsg| #[trigger] step_msg(tr[j - 1], tr[j], sender, h, msg);
+            lemma_c14_frozen_without_admin(tr[j - 1], tr[j], sender, h, msg);
+        }
+    }
+}
+
 @fn contracts/cw4-group/src/contract.rs execute [closures: 1]
 @requires
     inv(old(deps.storage).view())
